@@ -382,8 +382,10 @@ def main(argv=None):
         ev["coverage"]["states"] = max(1, ev["coverage"]["states"])
         ev["coverage"]["transitions"] = max(1, ev["coverage"]["transitions"])
     if not a.only:
-        os.makedirs(os.path.join(VERIF, "evidence"), exist_ok=True)
-        json.dump(ev, open(os.path.join(VERIF, "evidence", f"{prop}.json"), "w"), indent=1, default=str)
+        # evidence/ describes runs against /repo itself; runs against a scratch copy (seeded changes, mutants) write elsewhere
+        evdir = os.path.join(VERIF, "evidence") if os.path.realpath(REPO) == "/repo" else os.path.join(VERIF, "scratch", "evidence")
+        os.makedirs(evdir, exist_ok=True)
+        json.dump(ev, open(os.path.join(evdir, f"{prop}.json"), "w"), indent=1, default=str)
     print(f"{prop} {tier}: {len(sel)} obligations, {st.paths} paths, queries {st.q}, solver {st.solver_s:.1f}s, "
           f"replayed {len(rr)} (confirmed {confirmed}, known {sum(v['n'] for v in known_hits.values())}), "
           f"new violations {len(new_violations)}, inconclusive {len(inconclusive)}, wall {time.time() - t0:.1f}s")
